@@ -74,6 +74,10 @@ func c11Errors() []struct {
 		{"invalid-arity", gen.Func("abs")},
 		{"unknown-function", gen.Func("nosuchfn", gen.Current())},
 		{"zero-slice-step", gen.Chain(gen.LitJSON("[1,2]"), gen.StSliceS("", "", "0"))},
+		{"zero-slice-step, start at the length", gen.Chain(gen.LitJSON("[1,2]"), gen.StSliceS("2", "", "0"))},
+		{"zero-slice-step, bounds select nothing", gen.Chain(gen.LitJSON("[1,2]"), gen.StSliceS("5", "7", "0"))},
+		{"zero-slice-step, equal bounds", gen.Chain(gen.LitJSON("[1,2,3]"), gen.StSliceS("1", "1", "0"))},
+		{"zero-slice-step on an empty array", gen.Chain(gen.LitJSON("[]"), gen.StSliceS("0", "", "0"))},
 		{"by-expression key error", gen.Func("sort_by", gen.LitJSON(`[{"a":1},{"a":"x"}]`), gen.ExpRef(gen.Field("a")))},
 		{"error inside an expref body", gen.Func("map", gen.ExpRef(gen.Func("abs", gen.Raw("s"))), gen.LitJSON("[1]"))},
 		{"error inside a filter condition", gen.Chain(gen.LitJSON("[1]"), gen.StFilter(gen.Func("abs", gen.Raw("s"))))},
